@@ -8,6 +8,14 @@
 
 using namespace engine;
 
+// The move generator's own per-ray walkers (engine/movegen.cpp). They have external linkage but no header; declared weak so
+// that the monitor still links (and simply skips this part) if a refactor makes them internal.
+namespace engine
+{
+Bitboard attack_in_ray(Square sq, Ray ray, Bitboard blockers) __attribute__((weak));
+Bitboard attack_in_line(Square sq, Ray ray, Bitboard blockers) __attribute__((weak));
+}
+
 namespace
 {
 vh::Recorder rec;
@@ -223,6 +231,45 @@ int main(int argc, char** argv)
             for (uint64_t v = 0; v < 65536; ++v) cmp_sets(v << (8 * r));
         rec.count("two-rank-pawn-sets", 3 * 65536);
     }
+    if (engine::attack_in_ray && engine::attack_in_line)
+    {
+        vh::set_case_text("movegen ray walkers");
+        static const int RDIR[8][2] = {{-1, 1}, {0, 1}, {1, 1}, {1, 0}, {1, -1}, {0, -1}, {-1, -1}, {-1, 0}};
+        long n = 0;
+        for (int sq = worker; sq < 64; sq += workers)
+            for (int d = 0; d < 8; ++d)
+            {
+                // all subsets of the squares on this ray, plus random garbage elsewhere
+                uint64_t raysq = walk(sq, RDIR[d][0], RDIR[d][1], 0);
+                uint64_t sub = 0;
+                do
+                {
+                    for (int g = 0; g < 2; ++g)
+                    {
+                        uint64_t occ = sub | (g ? (rng.next() & rng.next() & ~raysq) : 0);
+                        uint64_t ref = walk(sq, RDIR[d][0], RDIR[d][1], occ);
+                        uint64_t got = engine::attack_in_ray(Square(sq), Ray(d), occ);
+                        ++n;
+                        if (got != ref)
+                            rec.violation("attack_in_ray:ray" + std::to_string(d), vh::J().str("square", orc::sq_name(sq)).num("ray", d).str("occupancy", hx(occ)).str("engine", hx(got)).str("geometry", hx(ref)).done());
+                        if (d < 4)
+                        {
+                            uint64_t occ2 = occ | (rng.next() & rng.next());
+                            uint64_t ref2 = walk(sq, RDIR[d][0], RDIR[d][1], occ2) | walk(sq, -RDIR[d][0], -RDIR[d][1], occ2);
+                            uint64_t got2 = engine::attack_in_line(Square(sq), Ray(d), occ2);
+                            ++n;
+                            if (got2 != ref2)
+                                rec.violation("attack_in_line:ray" + std::to_string(d), vh::J().str("square", orc::sq_name(sq)).num("ray", d).str("occupancy", hx(occ2)).str("engine", hx(got2)).str("geometry", hx(ref2)).done());
+                        }
+                    }
+                    sub = (sub - raysq) & raysq;
+                } while (sub);
+            }
+        rec.evaluations += n;
+        rec.count("movegen-ray-walker-cases", n);
+    }
+    else if (worker == 0)
+        rec.count("movegen-ray-walkers-not-linkable(skipped)");
     rec.sample(vh::J().str("square", "e4").str("occupancy", "0000001000100000").str("rook_attack", hx(slider_attack<ROOK>(SQ_E4, 0x0000001000100000ULL))).done());
     rec.emit();
     return 0;
